@@ -35,6 +35,8 @@ def validate(ctx, module, traces, stage, extra=None, cfg=_CFG, workers=8, batch_
         st["trace_states"] = st.get("trace_states", 0) + r.distinct
         if count_states:
             ctx.cov["trace_states_checked"] = ctx.cov.get("trace_states_checked", 0) + r.distinct
+            ctx.cov["states"] += r.distinct              # states of the trace specification TLC explored
+            ctx.cov["transitions"] += r.generated
         for txt in r.printed():
             head = txt.lstrip("< \n")[:6]          # TLC wraps wide tuples as `<< "REJ",` over several lines
             if head not in ('"ACC",', '"REJ",'):
